@@ -13,6 +13,10 @@ pub(crate) struct SymmetricStateData {
     h:       [u8; MAXHASHLEN],
     ck:      [u8; MAXHASHLEN],
     has_key: bool,
+    // The key currently installed in the handshake cipher (if any) and, in a
+    // checkpoint, the nonce it was at when the checkpoint was taken.
+    k:       Option<[u8; CIPHERKEYLEN]>,
+    n:       u64,
 }
 
 impl Default for SymmetricStateData {
@@ -21,6 +25,8 @@ impl Default for SymmetricStateData {
             h:       [0_u8; MAXHASHLEN],
             ck:      [0_u8; MAXHASHLEN],
             has_key: false,
+            k:       None,
+            n:       0,
         }
     }
 }
@@ -66,6 +72,7 @@ impl SymmetricState {
 
         self.inner.ck = hkdf_output.0;
         self.cipherstate.set(&cipher_key, 0);
+        self.inner.k = Some(cipher_key);
         self.inner.has_key = true;
     }
 
@@ -95,6 +102,7 @@ impl SymmetricState {
         let mut cipher_key = [0_u8; CIPHERKEYLEN];
         cipher_key.copy_from_slice(&hkdf_output.2[..CIPHERKEYLEN]);
         self.cipherstate.set(&cipher_key, 0);
+        self.inner.k = Some(cipher_key);
     }
 
     pub fn has_key(&self) -> bool {
@@ -151,11 +159,15 @@ impl SymmetricState {
     }
 
     pub(crate) fn checkpoint(&mut self) -> SymmetricStateData {
+        self.inner.n = self.cipherstate.nonce();
         self.inner
     }
 
     pub(crate) fn restore(&mut self, checkpoint: SymmetricStateData) {
         self.inner = checkpoint;
+        if let Some(key) = checkpoint.k {
+            self.cipherstate.set(&key, checkpoint.n);
+        }
     }
 
     pub fn handshake_hash(&self) -> &[u8] {
